@@ -248,7 +248,7 @@ def check_trunc(recipe) -> list[Fail]:
     n = n_nt = n_known = 0
     outcomes = {}
     keys = []
-    # A cut at a LINE boundary where an uncounted, optional block (UNITY_ATOM_ATTR ...) of the last molecule is about to begin, or has just
+    # A cut at a LINE boundary where an uncounted, optional block (UNITY_ATOM_ATTR ...) of the molecule the file then ends in is about to begin, or has just
     # completed one of its records, leaves a well-formed file of a molecule that simply lacks those optional records: no reader can tell
     # (same class as whole-record deletions in such blocks).  Cuts inside a record of the block (the announced attribute lines are not all
     # there) and every cut inside a line stay asserted.
@@ -258,10 +258,12 @@ def check_trunc(recipe) -> list[Fail]:
         for i, l in enumerate(lines):
             s_ = l.strip()
             if s_.startswith("@<TRIPOS>"):
-                if s_[9:].startswith("UNITY_") and offs[i] >= last_start:
+                if s_[9:].startswith("UNITY_"):
                     optional_cuts.add(offs[i])          # cut right before the block's tag line
+                    # ... or inside its name: "@<TRIPOS>U" reads as the tag of some unknown (skipped) block
+                    optional_cuts.update(range(offs[i] + 9, offs[i + 1]))
                 block, pending = s_[9:], 0
-                if block.startswith("UNITY_") and offs[i + 1] >= last_start:
+                if block.startswith("UNITY_"):
                     optional_cuts.add(offs[i + 1])      # the tag line alone: an empty optional block
             elif block and block.startswith("UNITY_") and s_:
                 if pending == 0:
@@ -271,7 +273,7 @@ def check_trunc(recipe) -> list[Fail]:
                         pending = 0
                 else:
                     pending -= 1
-                if pending == 0 and offs[i + 1] >= last_start:
+                if pending == 0:
                     optional_cuts.add(offs[i + 1])      # a record of the block is complete here
     optional_lens = {len(text[:c_].rstrip()) for c_ in optional_cuts}
     for cut in sorted(cuts):
